@@ -62,6 +62,13 @@ theorem const_spelling_sbv {n : Int} {w : Nat} (hw : w ≠ 0) (h1 : -(2 ^ (w - 1
   next hneg => exact mkSBV_neg hw h1 hneg
   next hpos => exact mkSBV_nonneg hw (by omega) h2
 
+/-- `bv_signed_value()` of the constant that `SBV(n, w)` builds is `n` again — in particular
+    for the most negative value `n = -2^(w-1)` and for `w = 1`. -/
+theorem sbv_signed_value_faithful {n : Int} {w : Nat} (hw : w ≠ 0) (h1 : -(2 ^ (w - 1) : Int) ≤ n)
+    (h2 : n ≤ (2 ^ (w - 1) : Int) - 1) :
+    bvSignedValue (if n < 0 then (2 ^ w : Int) + n else n).toNat w = n :=
+  sbv_signed hw h1 h2
+
 /-- `Int(v)` / `Real(v)` with an illegal argument (`bool`, `float` for `Int`, `str`…) are
     rejected in every state: the outcome does not depend on the history (F07 repaired). -/
 theorem const_validation_history_independent (s : Mgr) :
@@ -237,6 +244,10 @@ example :
     let r5 := r4.2.normalize 2 2 id 4
     (r2.1, r3.1, r4.1, r5.1) = (.ok 3, .ok 4, .ok 3, .ok 4) ∧
     (r5.2.mgrs 2).content? 4 = some (symC "y" .int) := by decide +kernel
+
+/-- `SBV(-8, 4)` and `BV(1, 1)`: the most negative value of a width is negative -/
+example : bvSignedValue 8 4 = -8 ∧ bvSignedValue 1 1 = -1 ∧ bvSignedValue 7 4 = 7 ∧ bvSignedValue 0 1 = 0 ∧
+    bvBinStr 8 4 = ['1', '0', '0', '0'] := by decide +kernel
 
 /-- sorted assignments exist: two distinct keys in either address order -/
 example : SortedBy (fun i => 10 - i) (arrayAssignments (fun i => 10 - i) 9 [(3, 7), (4, 8), (5, 9)]) ∧
